@@ -116,6 +116,12 @@ def gen(rng, tier):
         hs = bytearray(spk); hs[31] |= 0x80
         cs.append(Case("kx_client %s %s %s" % (hx(cpk), hx(csk), hx(bytes(hs))), cls="kx/peer-high-bit"))
         cs.append(Case("kx_server %s %s %s" % (hx(spk), hx(ssk), hx(bytes(hb))), cls="kx/peer-high-bit"))
+    # a key pair exchanging keys with ITSELF (loop-back, tests, one identity on both ends): the peer key equals the own public key
+    for i in range(6 if tier == "quick" else 40):
+        sk = rbytes(rng, 32); pk = refs.x25519_base(sk)
+        cs.append(Case("kx_client %s %s %s" % (hx(pk), hx(sk), hx(pk)), cls="kx/peer-is-own-key", expect=(lambda a: a.startswith("ok ")), meta={"why": "an exchange with one's own public key is an ordinary exchange"}))
+        cs.append(Case("kx_server %s %s %s" % (hx(pk), hx(sk), hx(pk)), cls="kx/peer-is-own-key", expect=(lambda a: a.startswith("ok ")), meta={"why": "an exchange with one's own public key is an ordinary exchange"}))
+        cs.append(Case("scalarmult %s %s" % (hx(sk), hx(pk)), cls="dh/peer-is-own-key"))
     for u in us:
         sk = rbytes(rng, 32)
         pk = refs.x25519_base(sk)
